@@ -29,7 +29,7 @@ func goEnv() []string {
 }
 
 // BuildNative builds the replay test binary for package reldir.
-func BuildNative(l *Loaded, repo, reldir, genDir, tags string, pkg *ssa.Package) (*NativeBuild, error) {
+func BuildNative(l *Loaded, repo, reldir, genDir, tags string, pkg *ssa.Package, race ...bool) (*NativeBuild, error) {
 	os.MkdirAll(genDir, 0o755)
 	fns := FindHarnesses([]*ssa.Package{pkg}, "VerifH_", "VerifT_")
 	var sb strings.Builder
@@ -118,8 +118,12 @@ func TestVerifReplay(t *testing.T) {
 		return nil, err
 	}
 	bin := filepath.Join(genDir, strings.ReplaceAll(reldir, "/", "_")+".test")
-	cmd := exec.Command("go", "test", "-c", "-o", bin, "-tags", tags, "-vet=off", "-ldflags=-checklinkname=0",
-		"-overlay", ovPath, "./"+reldir)
+	args := []string{"test", "-c", "-o", bin, "-tags", tags, "-vet=off", "-ldflags=-checklinkname=0", "-overlay", ovPath}
+	if len(race) > 0 && race[0] {
+		args = append(args, "-race")
+	}
+	args = append(args, "./"+reldir)
+	cmd := exec.Command("go", args...)
 	cmd.Dir = repo
 	cmd.Env = goEnv()
 	out, err := cmd.CombinedOutput()
@@ -154,6 +158,9 @@ func (nb *NativeBuild) RunSingle(harness string, assign map[string]string, tier 
 		return "timeout||", buf.String(), nil
 	}
 	out := buf.String()
+	if strings.Contains(out, "WARNING: DATA RACE") {
+		return "race||", out, nil
+	}
 	for _, line := range strings.Split(out, "\n") {
 		if strings.HasPrefix(line, "VERIF-OUTCOME ") {
 			return strings.TrimPrefix(line, "VERIF-OUTCOME "), out, nil
